@@ -1,11 +1,13 @@
 """C32 Refspec matching never panics — prefix/suffix overlap rule for glob ranges (FLOW + DOM), explicit-unwrap census."""
 import re
-from gx.flow import Flow, comparisons
+from gx.flow import Flow, comparisons, bool_switch_edges
+from gx import lin
 
-TECHNIQUE = "range well-formedness rule: a Range whose end is a difference of lengths and whose start is an independent position needs a dominating comparison relating the two; unwrap/expect census over the matching code"
+TECHNIQUE = "range well-formedness by linear length abstraction (LIN): the dominating guard's admitted set must equal `end - start >= 0` as normal forms over symbolic lengths; unwrap/expect census over the matching code"
 EXPLANATION = ("In gix-refspec's match_group code every `start..end` range built from a glob position and `len(name) - len(tail)` (prefix and suffix were "
-               "tested separately, so they may overlap) must be dominated by an ordering comparison between a value derived from the start position and "
-               "a value derived from those lengths; otherwise the later slice `name[start..end]` panics for items shorter than prefix+suffix. "
+               "tested separately, so they may overlap) must be dominated by an ordering comparison whose admitted set, written as D >= 0 with D a linear form over symbolic lengths "
+               "(len(x[a..]) = len(x) - a etc.), is exactly `end - start >= 0`: laxer and the later slice `name[start..end]` panics for items shorter than "
+               "prefix+suffix, stricter and items git matches (empty `*` match) are dropped. "
                "Explicit unwrap/expect calls reachable in match_group are enumerated and must be on the reviewed list. Equality of the produced "
                "mappings with git's is not decided.")
 REVIEWED_UNWRAPS = {
@@ -18,59 +20,48 @@ def run(db, chk):
     chk.floor("match_group functions", len(fns), 20)
     nranges = 0
     for f in fns:
-        fl = Flow(f)
+        ev = lin.Evaluator(f)
+        fl = ev.fl
         for bi, si, pl, rv, ln, mc in f.assigns():
             if rv[0] != "agg" or rv[1] != "adt" or not rv[2].endswith("ops::range::Range") or len(rv[4]) != 2:
                 continue
-            start, end = rv[4]
-            # end must be a difference of lengths
-            end_roots = fl.roots(end, stop_named=False, sites=True, stop_calls=r"::len$")
-            def len_atoms(roots):
-                out = set()
-                for r in roots:
-                    if r[0] == "call" and r[1].endswith("::len"):
-                        call = [c_ for c_ in f.calls() if c_.block == r[2]][0]
-                        out.add(frozenset(x for x in fl.roots(call.args[0], stop_named=False) if x[0] in ("arg", "var")))
-                return out
-            end_lens = len_atoms(end_roots)
-            is_diff = False
-            seen = set()
-            work = [end["p"][0]] if "p" in end else []
-            while work:
-                l = work.pop()
-                if l in seen:
-                    continue
-                seen.add(l)
-                for (b2, s2, k2, p2) in fl.defs.get(l, []):
-                    if k2 == "a":
-                        r2 = p2[1]
-                        if r2[0] == "bin" and r2[1].startswith("Sub"):
-                            is_diff = True
-                        for o in ([r2[1]] if r2[0] == "use" else []):
-                            if "p" in o:
-                                work.append(o["p"][0])
-            if not (is_diff and len(end_lens) >= 2):
-                continue
+            start, end = ev.value(rv[4][0]), ev.value(rv[4][1])
+            slack = end - start          # the range is well-formed iff slack >= 0
+            lens = [k for k in slack.t if k[0] == "len"]
+            if len(lens) < 2 or start.is_const():
+                continue                  # not a `position .. len - len` range
             nranges += 1
-            def norm(r):
-                return (r[0], r[1], tuple(x for x in r[2] if x not in (".0", ".1"))) if r[0] == "arg" else (r[0], r[1])
-            start_roots = {norm(r) for r in fl.roots(start, stop_named=False) if r[0] in ("arg", "var")}
-            end_vars = {l for l in seen}
-            ok = False
+            exact, near = [], []
             for c in comparisons(f):
                 if c["op"] not in ("Lt", "Le", "Gt", "Ge") or not f.dominates(c["block"], bi):
                     continue
-                ra = fl.roots(c["a"], stop_named=False, sites=True, stop_calls=r"::len$")
-                rb = fl.roots(c["b"], stop_named=False, sites=True, stop_calls=r"::len$")
-                def has_len(r, op):
-                    return bool(len_atoms(r) & end_lens) or ("p" in op and op["p"][0] in end_vars)
-                def has_start(r):
-                    return bool({norm(x) for x in r if x[0] in ("arg", "var")} & start_roots)
-                if (has_len(ra, c["a"]) and has_start(rb)) or (has_len(rb, c["b"]) and has_start(ra)):
-                    ok = True
-            chk.ob("glob-range-well-formed", "%s start..len-len range" % f.name, ok,
-                   "range start (glob position) and end (len(name)-len(tail)) are never compared: prefix and suffix may overlap (e.g. `a*a` vs `a`)", "%s:%d" % (f.file, ln),
-                   key="glob-range|%s" % f.name)
+                e = bool_switch_edges(f, c["block"], c["res"])
+                if not e:
+                    continue
+                te, fe = e
+                on_true = fl.cut_off([bi], te, start=c["block"])
+                on_false = fl.cut_off([bi], fe, start=c["block"])
+                if on_true == on_false:
+                    continue
+                a, b = ev.value(c["a"]), ev.value(c["b"])
+                one = lin.Lin({}, 1)
+                d = {("Lt", True): b - a - one, ("Lt", False): a - b, ("Le", True): b - a, ("Le", False): a - b - one,
+                     ("Gt", True): a - b - one, ("Gt", False): b - a, ("Ge", True): a - b, ("Ge", False): b - a - one}[(c["op"], on_true)]
+                diff = d - slack
+                if diff.is_const():
+                    (exact if diff.c == 0 else near).append((c["line"], d, diff.c))
+            if exact:
+                ok, why = True, ""
+            elif near:
+                ln2, d, off = near[0]
+                ok = False
+                why = ("the guard at line %d admits exactly the items with %s >= 0, but the range start..end is well-formed iff %s >= 0: the guard is %s by %d"
+                       % (ln2, d, slack, "too lax (prefix and suffix may overlap: slice panics)" if off > 0 else "too strict (items git matches are dropped)", abs(off)))
+            else:
+                ok = False
+                why = "range start (glob position) and end (len(name)-len(tail)) are never compared: prefix and suffix may overlap (e.g. `a*a` vs `a`); range length is %s" % slack
+            chk.ob("glob-range-well-formed", "%s start..len-len range" % f.name, ok, why, "%s:%d" % (f.file, ln), key="glob-range|%s" % f.name)
+            chk.sample({"function": f.name, "range_length": repr(slack), "guards": [(l_, repr(d_)) for l_, d_, _ in exact + near]})
     chk.floor("prefix/suffix ranges found", nranges, 1)
     # unwrap census
     n = 0
